@@ -10,6 +10,7 @@ import Drivers.UbdD
 import Drivers.ReimbD
 import Drivers.WasmD
 import Drivers.OracleParamsD
+import Drivers.ShieldParamsD
 import Drivers.BlockhashD
 /-
   Chain driver: reads the trace of the real application (one JSON object per line),
@@ -1064,6 +1065,15 @@ partial def loop (hIn : IO.FS.Stream) (ds : DS) : IO DS := do
         let mut ds := ds
         for k in r.stats do ds := stat ds ("sit." ++ k)
         ds := { ds with stats := bump ds.stats "tx.oracle.paramchange.ok" 1 }
+        for (kind, props, name, detail) in r.findings do
+          ds ← finding ds kind props name detail
+        pure ds
+      | "sparams" => do
+        -- C07: the shield's withdraw period changed by the real parameter-change handler, then a real withdrawal request (profile "shieldparams")
+        let r := ShieldParamsD.check j
+        let mut ds := ds
+        for k in r.stats do ds := stat ds (if k.startsWith "mon." then k else "sit." ++ k)
+        ds := { ds with stats := bump ds.stats "tx.shield.paramchange.ok" 1 }
         for (kind, props, name, detail) in r.findings do
           ds ← finding ds kind props name detail
         pure ds
